@@ -7,6 +7,7 @@
    every state, harness assertions true), and a final `SUMMARY ...` line.
    Modes:  pool            validate with Pool.step
            pool --strict   validate with Pool.step_d (limit lowered / pool freed only when quiescent)
+           pool --repaired start from Pool.init_r (threading.c with fixes/C06_limit_while_busy.patch)
            pool --witness NAME   print a model trace in the shim's trace format plus a `follow` line
    The internal step LTau (worker reads thread->alive) is fired right after each event of
    that worker as soon as the model enables it: that is when the real code performs the read. *)
@@ -79,6 +80,31 @@ let line_of_label (l : label) : string option =
         | EFree -> ("free", 0) | EFreeRet -> ("free_ret", 0) | EStrict b -> ("strict", if b then 1 else 0)
         | EStart k -> ("start", i k) | EEnd k -> ("end", i k) in
       Some (Printf.sprintf "%d ev %s %d" (i t) tag a)
+let coq_of_label (l : label) : string =
+  let i = int_of_nat in
+  let m = function QC -> "QC" | WC -> "WC" in
+  match l with
+  | LTau t -> Printf.sprintf "LTau %d" (i t)
+  | LBegin t -> Printf.sprintf "LBegin %d" (i t)
+  | LExit t -> Printf.sprintf "LExit %d" (i t)
+  | LCont t -> Printf.sprintf "LCont %d" (i t)
+  | LYield t -> Printf.sprintf "LYield %d" (i t)
+  | LCreate (t, u) -> Printf.sprintf "LCreate %d %d" (i t) (i u)
+  | LJoin (t, u) -> Printf.sprintf "LJoin %d %d" (i t) (i u)
+  | LLock (t, x) -> Printf.sprintf "LLock %d %s" (i t) (m x)
+  | LUnlock (t, x) -> Printf.sprintf "LUnlock %d %s" (i t) (m x)
+  | LCWait (t, x) -> Printf.sprintf "LCWait %d %s" (i t) (m x)
+  | LCWake (t, x, sp) -> Printf.sprintf "LCWake %d %s %b" (i t) (m x) sp
+  | LSignal (t, x, u) -> Printf.sprintf "LSignal %d %s %s" (i t) (m x) (match u with None -> "None" | Some u -> Printf.sprintf "(Some %d)" (i u))
+  | LBcast (t, x, n) -> Printf.sprintf "LBcast %d %s %d" (i t) (m x) (i n)
+  | LEv (t, e) ->
+      let es = match e with
+        | ENew n -> Printf.sprintf "(ENew %d)" (i n) | ENewRet -> "ENewRet" | EAssign k -> Printf.sprintf "(EAssign %d)" (i k) | EAssignRet -> "EAssignRet"
+        | EWait -> "EWait" | EWaitRet -> "EWaitRet" | ESetLimit k -> Printf.sprintf "(ESetLimit %d)" (i k) | ESetLimitRet -> "ESetLimitRet"
+        | EFree -> "EFree" | EFreeRet -> "EFreeRet" | EStrict b -> Printf.sprintf "(EStrict %b)" b
+        | EStart k -> Printf.sprintf "(EStart %d)" (i k) | EEnd k -> Printf.sprintf "(EEnd %d)" (i k) in
+      Printf.sprintf "LEv %d %s" (i t) es
+
 (* scheduling points of the shim: every event except unlock / ev / tau *)
 let follow_tid (l : label) : int option =
   let i = int_of_nat in
@@ -100,18 +126,23 @@ let () =
   let strict = List.mem "--strict" args in
   (match args with
    | _ :: "--witness" :: name :: _ ->
-       let tr = match name with "limit_running" -> witness_limit_running | "round" -> example_round | _ -> failwith "unknown witness" in
+       let tr = match name with "limit_running" -> witness_limit_running | "round" -> example_round
+         | "nested" -> example_nested | "inline" -> example_inline | "worker_inline" -> example_worker_inline
+         | "repaired" -> example_repaired | _ -> failwith "unknown witness" in
        List.iter (fun l -> match line_of_label l with Some s -> print_endline s | None -> ()) tr;
        print_string "follow ";
        print_endline (String.concat "," (List.filter_map (fun l -> match follow_tid l with Some t -> Some (string_of_int t) | None -> None) tr));
        exit 0
    | _ -> ());
   let stepf = if strict then step_d else step in
+  let init0 = if List.mem "--repaired" args then init_r else init in
+  let coq_trace = List.mem "--coq-trace" args in
   let runs = ref 0 and events = ref 0 and ok = ref 0 and rejects = ref 0 and invfail = ref 0
   and harness_bad = ref 0 and deadlocks = ref 0 and dead_confirmed = ref 0 and skipped = ref 0 and taus = ref 0 and spurious = ref 0
-  and maxlen = ref 0 and distinct = Hashtbl.create 1024 in
+  and maxlen = ref 0 and nested_runs = ref 0 and distinct = Hashtbl.create 1024 in
   let hdr = ref [||] in
-  let st = ref init and idx = ref 0 and failed = ref None and in_block = ref false and nested = ref false in
+  let st = ref init0 and idx = ref 0 and failed = ref None and in_block = ref false and nested = ref false in
+  let coqbuf = Buffer.create 4096 in
   let digest = Buffer.create 4096 in
   let field k = let h = !hdr in let r = ref "-" in Array.iteri (fun i x -> if x = k && i + 1 < Array.length h then r := h.(i + 1)) h; !r in
   let finish () =
@@ -124,10 +155,9 @@ let () =
       | Some (k, i, line) -> (if k = "model-reject" then incr rejects else incr invfail);
           Printf.printf "BAD kind=%s idx=%d status=%d %s event=\"%s\"\n" k i status id line; true
       | None -> false) in
-    if !nested then incr skipped;
     if status = 1 then begin
       incr deadlocks;
-      let confirmed = (not model_bad) && (not !nested) && dead_state !st in
+      let confirmed = (not model_bad) && dead_state !st in
       if confirmed then incr dead_confirmed;
       Printf.printf "BAD kind=deadlock model_dead=%b status=%d %s\n" confirmed status id
     end else if status <> 0 || rc <> 0 then begin
@@ -137,8 +167,9 @@ let () =
       (* completed run: final-state facts *)
       let s = !st in
       let script = field "script" in
-      let ends_free = String.length script > 0 && script.[String.length script - 1] = 'f' in
-      if (not !nested) && ends_free && not (s.pc0 = CDone && List.for_all (fun w -> is_exited w && w.w_joined) s.workers) then begin
+      let ends_free = String.length script > 0 && (script.[String.length script - 1] = 'f' || script.[String.length script - 1] = 'F') in
+      if coq_trace then Printf.printf "COQTRACE %s [ %s ]\n" script (Buffer.contents coqbuf);
+      if ends_free && not (s.pc0 = CDone && chk_final s) then begin
         incr invfail; Printf.printf "BAD kind=final-state status=%d %s\n" status id
       end else incr ok
     end in
@@ -148,14 +179,15 @@ let () =
       let n = String.length line in
       if n > 5 && String.sub line 0 5 = "# run" then begin
         hdr := Array.of_list (String.split_on_char ' ' line);
-        st := init; idx := 0; failed := None; in_block := true; Buffer.clear digest;
-        nested := String.contains (field "script") 'N'
+        st := init0; idx := 0; failed := None; in_block := true; Buffer.clear digest; Buffer.clear coqbuf;
+        nested := (let sc = field "script" in String.contains sc 'N' || String.contains sc 'B' || String.contains sc 'D');
+        if !nested then incr nested_runs
       end else if line = "# end" then begin
         if !in_block then finish (); in_block := false
       end else if n > 0 && line.[0] = '#' then ()
       else if !in_block then begin
         incr idx; incr events; Buffer.add_string digest line; Buffer.add_char digest '\n';
-        if !failed = None && not !nested then begin
+        if !failed = None then begin
           match (try label_of_line line with Bad_line _ | Failure _ | Invalid_argument _ -> failed := Some ("model-reject", !idx, line); None) with
           | None -> ()
           | Some l ->
@@ -164,16 +196,20 @@ let () =
               (match stepf !st l with
                | None -> failed := Some ("model-reject", !idx, line)
                | Some s1 ->
+                   if coq_trace then Buffer.add_string coqbuf (coq_of_label l ^ "; ");
                    let s2 = (match label_tid l with
                      | O -> s1
-                     | w -> (match stepf s1 (LTau w) with Some s2 -> incr taus; s2 | None -> s1)) in
+                     | w -> (match stepf s1 (LTau w) with
+                             | Some s2 -> incr taus; if coq_trace then Buffer.add_string coqbuf (coq_of_label (LTau w) ^ "; "); s2
+                             | None -> s1)) in
                    st := s2;
                    if not (chk_all s2) then
-                     failed := Some ((if not (chk_conservation s2) then "inv-conservation" else if not (chk_busy s2) then "inv-busy" else "inv-barrier"), !idx, line))
+                     failed := Some ((if not (chk_conservation s2) then "inv-conservation" else if not (chk_busy s2) then "inv-busy"
+                                      else if not (chk_barrier s2) then "inv-barrier" else "inv-final"), !idx, line))
         end
       end
     done
   with End_of_file -> ());
   let hist = String.concat "," (List.sort compare (Hashtbl.fold (fun k v acc -> (k ^ ":" ^ string_of_int v) :: acc) kind_hist [])) in
-  Printf.printf "SUMMARY runs=%d events=%d ok=%d model_reject=%d inv_fail=%d harness_bad=%d deadlock=%d deadlock_model_confirmed=%d skipped_model=%d taus=%d spurious=%d distinct_traces=%d max_trace_len=%d hist=%s\n"
-    !runs !events !ok !rejects !invfail !harness_bad !deadlocks !dead_confirmed !skipped !taus !spurious (Hashtbl.length distinct) !maxlen hist
+  Printf.printf "SUMMARY runs=%d events=%d ok=%d model_reject=%d inv_fail=%d harness_bad=%d deadlock=%d deadlock_model_confirmed=%d skipped_model=%d nested_runs=%d taus=%d spurious=%d distinct_traces=%d max_trace_len=%d hist=%s\n"
+    !runs !events !ok !rejects !invfail !harness_bad !deadlocks !dead_confirmed !skipped !nested_runs !taus !spurious (Hashtbl.length distinct) !maxlen hist
